@@ -75,5 +75,7 @@ func handlePanic() {
 		fmt.Println("Recovered from panic:")
 		fmt.Println(r)
 		debug.PrintStack()
+		// a crashed run has written nothing: it must not look like a success
+		os.Exit(2)
 	}
 }
